@@ -38,15 +38,17 @@ Definition flags_expected (op : string) (s : Z) : list (string * bool) :=
   else if is_op op "CompleteTask" then [("Completed"%string, s =? StCreated)]
   else [].
 
-(* the resources that must be visible in a successful reply when the kernel supplied them (shape 0: all optional
+(* EXACT: the promise object of the reply carries every field of the stub promise, value for value, under the names of
+   the protocol (HTTP JSON keys / protobuf fields).
+   the resources that must be visible in a successful reply when the kernel supplied them (shape 0: all optional
    fields set; 2: optional fields nil; 1: resources absent).  HTTP 204 carries no body. *)
 Definition markers_http (op : string) (s : Z) (shape : Z) (resume : bool) : list string :=
   if (shape =? 1) && negb (is_op op "ClaimTask" && (s =? StCreated)) && negb (op_in op ["HeartbeatLocks"; "HeartbeatTasks"]%string) then []
   else if s =? StNoContent then []
   else if op_in op ["ReadPromise"; "SearchPromises"; "CreatePromise"; "ResolvePromise"; "RejectPromise"; "CancelPromise"]%string
-       then "PRM" :: (if shape =? 0 then ["IKEY"] else [])
-  else if is_op op "CreatePromiseAndTask" then "PRM" :: "TSK" :: (if shape =? 0 then ["IKEY"] else [])
-  else if op_in op ["CreateCallback"; "CreateSubscription"]%string then "PRM" :: "CBK" :: (if shape =? 0 then ["IKEY"] else [])
+       then "PRM" :: (if shape =? 0 then ["IKEY"; "EXACT"] else [])
+  else if is_op op "CreatePromiseAndTask" then "PRM" :: "TSK" :: (if shape =? 0 then ["IKEY"; "EXACT"] else [])
+  else if op_in op ["CreateCallback"; "CreateSubscription"]%string then "PRM" :: "CBK" :: (if shape =? 0 then ["IKEY"; "EXACT"] else [])
   else if op_in op ["ReadSchedule"; "SearchSchedules"; "CreateSchedule"]%string then "SCH" :: (if shape =? 0 then ["IKEY"] else [])
   else if is_op op "AcquireLock" then ["LCK"]
   else if op_in op ["HeartbeatLocks"; "HeartbeatTasks"]%string then ["7777"]
@@ -63,8 +65,8 @@ Definition markers_http (op : string) (s : Z) (shape : Z) (resume : bool) : list
 Definition markers_grpc (op : string) (s : Z) (shape : Z) (resume : bool) : list string :=
   if (shape =? 1) && negb (is_op op "ClaimTask" && (s =? StCreated)) && negb (op_in op ["HeartbeatLocks"; "HeartbeatTasks"]%string) then []
   else if op_in op ["ReadPromise"; "SearchPromises"; "CreatePromise"; "CreatePromiseAndTask"; "ResolvePromise"; "RejectPromise"; "CancelPromise"]%string
-       then "PRM" :: (if shape =? 0 then ["IKEY"] else [])
-  else if op_in op ["CreateCallback"; "CreateSubscription"]%string then "PRM" :: "CBK" :: (if shape =? 0 then ["IKEY"] else [])
+       then "PRM" :: (if shape =? 0 then ["IKEY"; "EXACT"] else [])
+  else if op_in op ["CreateCallback"; "CreateSubscription"]%string then "PRM" :: "CBK" :: (if shape =? 0 then ["IKEY"; "EXACT"] else [])
   else if op_in op ["ReadSchedule"; "SearchSchedules"; "CreateSchedule"]%string then "SCH" :: (if shape =? 0 then ["IKEY"] else [])
   else if op_in op ["HeartbeatLocks"; "HeartbeatTasks"]%string then ["7777"]
   else if is_op op "ClaimTask" then
